@@ -5,7 +5,7 @@ import subprocess as sp
 from .. import tlc, drive, glue, project
 from ..core import Machinery
 
-STATES = ["clean", " M", "M ", "MM", "A ", "AM", " D", "D ", "R ", "RM", "??"]
+STATES = ["clean", " M", "M ", "MM", "A ", "AM", " D", "D ", "R ", "RM", "??", "D?"]       # "D?": removed from the index but kept on disk (git rm --cached): two status lines for one path
 OLD, NEW = "1.2.3", "1.2.4"
 GENV = dict(GIT_AUTHOR_NAME="t", GIT_AUTHOR_EMAIL="t@e", GIT_COMMITTER_NAME="t", GIT_COMMITTER_EMAIL="t@e", GIT_CONFIG_GLOBAL="/dev/null", GIT_CONFIG_SYSTEM="/dev/null")
 
@@ -60,6 +60,8 @@ def build(job):
                 os.remove(p)
             elif s == "D ":
                 git(root, "rm", "-q", pre + n)
+            elif s == "D?":
+                git(root, "rm", "-q", "--cached", pre + n)
             elif s in ("R ", "RM"):
                 git(root, "mv", pre + "old_" + n, pre + n)
                 if s == "RM":
